@@ -138,10 +138,11 @@ def entries_equal(ctx, got, exp, minimise=()):
     except Unaligned as e:
         return dict(status="undecided", backend="-", model=None, detail="unaligned: %s" % e, ms=0.0, side=getattr(e, "side", None))
     if gk[0] != ek[0] or gk[2] != ek[2] or len(gk[1]) != len(ek[1]):
-        return dict(status="refuted", backend="structural", model=None, detail="different array/arity: %r vs %r" % (gk[0], ek[0]), ms=0.0)
+        # a structural mismatch is a candidate only: it goes to replay, and is never reported without a failing input
+        return dict(status="undecided", backend="structural-mismatch", model=None, detail="different array/arity: %r vs %r" % (gk[0], ek[0]), ms=0.0)
     if gb != eb:
         # bound digit sets differ (e.g. summed over the wrong subsystem)
-        return dict(status="refuted", backend="structural", model=None, detail="sum ranges differ: %s vs %s" % (sorted(map(str, gb)), sorted(map(str, eb))), ms=0.0)
+        return dict(status="undecided", backend="structural-mismatch", model=None, detail="sum ranges differ: %s vs %s" % (sorted(map(str, gb)), sorted(map(str, eb))), ms=0.0)
     hyps = range_hyps()
     for u, r in gb:
         hyps += [sp.Ge(u, 0), sp.Lt(u, r)]
